@@ -151,7 +151,7 @@ func (c c04Case) String() string {
 
 func c04Gen(rt *rapid.T) c04Case {
 	var c c04Case
-	c.op = rapid.SampledFrom([]string{"MatMul", "MatMul", "Gemm", "Gemm", "LinearRegressor", "Scaler"}).Draw(rt, "op")
+	c.op = drawOp(rt, []string{"MatMul", "MatMul", "Gemm", "Gemm", "LinearRegressor", "Scaler"})
 	c.valid = true
 	c.dt = tensor.Float32
 	switch c.op {
